@@ -1,0 +1,89 @@
+//go:build verif
+
+package ssh
+
+// Hooks for /verif check C28 (algorithm negotiation). Add-only; compiled only with -tags verif.
+
+// VerifC28KexInit carries the name-lists of one KEXINIT message.
+type VerifC28KexInit struct {
+	KexAlgos                []string
+	ServerHostKeyAlgos      []string
+	CiphersClientServer     []string
+	CiphersServerClient     []string
+	MACsClientServer        []string
+	MACsServerClient        []string
+	CompressionClientServer []string
+	CompressionServerClient []string
+	LanguagesClientServer   []string
+	LanguagesServerClient   []string
+	FirstKexFollows         bool
+}
+
+// VerifC28Result is NegotiatedAlgorithms flattened, including the unexported
+// compression members. Read/Write are from the point of view of the side that ran
+// the computation (isClient).
+type VerifC28Result struct {
+	KeyExchange      string
+	HostKey          string
+	ReadCipher       string
+	ReadMAC          string
+	ReadCompression  string
+	WriteCipher      string
+	WriteMAC         string
+	WriteCompression string
+}
+
+func (k *VerifC28KexInit) msg() *kexInitMsg {
+	return &kexInitMsg{
+		KexAlgos:                k.KexAlgos,
+		ServerHostKeyAlgos:      k.ServerHostKeyAlgos,
+		CiphersClientServer:     k.CiphersClientServer,
+		CiphersServerClient:     k.CiphersServerClient,
+		MACsClientServer:        k.MACsClientServer,
+		MACsServerClient:        k.MACsServerClient,
+		CompressionClientServer: k.CompressionClientServer,
+		CompressionServerClient: k.CompressionServerClient,
+		LanguagesClientServer:   k.LanguagesClientServer,
+		LanguagesServerClient:   k.LanguagesServerClient,
+		FirstKexFollows:         k.FirstKexFollows,
+	}
+}
+
+// VerifC28FindAgreedAlgorithms runs findAgreedAlgorithms as the client (isClient) or
+// as the server would. nonNilOnError reports whether a non-nil *NegotiatedAlgorithms
+// came back together with an error.
+func VerifC28FindAgreedAlgorithms(isClient bool, client, server *VerifC28KexInit) (res *VerifC28Result, nonNilOnError bool, err error) {
+	algs, err := findAgreedAlgorithms(isClient, client.msg(), server.msg())
+	if err != nil {
+		return nil, algs != nil, err
+	}
+	if algs == nil {
+		return nil, false, nil
+	}
+	return &VerifC28Result{
+		KeyExchange:      algs.KeyExchange,
+		HostKey:          algs.HostKey,
+		ReadCipher:       algs.Read.Cipher,
+		ReadMAC:          algs.Read.MAC,
+		ReadCompression:  algs.Read.compression,
+		WriteCipher:      algs.Write.Cipher,
+		WriteMAC:         algs.Write.MAC,
+		WriteCompression: algs.Write.compression,
+	}, false, nil
+}
+
+// VerifC28FindCommon is findCommon (used for every negotiated field and for the
+// public key signature algorithm choice in client authentication).
+func VerifC28FindCommon(what string, client, server []string, isClient bool) (string, error) {
+	return findCommon(what, client, server, isClient)
+}
+
+// VerifC28KnownCiphers returns every cipher name the package can instantiate
+// (the keys of cipherModes), so that the AEAD/MAC rule is checked for each.
+func VerifC28KnownCiphers() []string {
+	var out []string
+	for name := range cipherModes {
+		out = append(out, name)
+	}
+	return out
+}
